@@ -7,25 +7,25 @@ HERE = os.path.dirname(os.path.abspath(__file__))
 VERIF = os.path.dirname(HERE)
 
 TEXT = {
-    "C01": ("Lean theorems C01_valence, C01_counts_consistent, C01_simple_graph, C01_forest: for EVERY table, string and flag combination, the molecule graph the decoder model builds obeys every atom's capacity, its tracked counts equal the true bond sums, it is a simple graph and a forest plus ring bonds (induction over the derivation and the ring queue, no bound). The model is tied to the code by regenerated tables/state functions and by differential correspondence of the output SMILES (all strings <= 3/4 symbols over a cover alphabet, stay-alive and uniform streams, several tables). The writer-level syntax clauses and the external-sanitizer clause are decided by an independent SMILES reader and RDKit on the real outputs only.",
+    "C01": ("Lean theorems, all by induction with no bound, for EVERY table, string and flag combination: graph level C01_valence, C01_counts_consistent, C01_simple_graph, C01_forest (derivation + ring pass); writer level C01w_writer_eq_spec (the explicit-stack writer = a structural pre-order rendering), C01w_balanced, C01w_labels_paired, C01w_every_atom_once, C01w_decoder_atom_order, C01w_labels_legal_partial (<= 99 ring bonds; the overflow is C01w_label_overflow, finding F1). Tie: regenerated tables/state functions (GenEq) and differential correspondence of the output SMILES (all strings <= 3/4 symbols over a cover alphabet, stay-alive and uniform streams, several tables). The external-sanitizer clause is validated with RDKit only.",
             "§7 C01"),
-    "C02": ("The decoder model mirrors the code and is tied to it by exhaustive small-scope correspondence (every string <= 3 (quick) / 4 (thorough) symbols over 28 symbols covering every rule and state, under 4 tables) plus sampled streams; index code, state functions and tables are regenerated from the source and the derivation.rst index table is proved equal to the constant (C16). The refinement theorem to an independent rendering of derivation.rst is not written yet, so this check is a translation validation of the code against the Lean rendering, not yet a proof of C02.",
+    "C02": ("Lean theorem C02_graph_eq_general: for every table, string and flag combination the decoder model's graph equals the graph of Spec/Derivation.lean - an independent, executable rendering of derivation.rst (count-down budget, declarative symbol classes, bond-list molecule, second-pass ring formation) - and the error classes agree (C02_reject_iff), for every result other than RecursionError (finding F2). 45 documented examples are kernel-checked against the spec. Tie: the real decoder is compared on every string <= 3/4 symbols over 28 symbols under 4 tables, plus sampled streams, BOTH with the model and with the independent spec through the driver.",
             "§7 C02"),
-    "C03": ("Differential correspondence of parser, kekulization (with the recorded choice tape), encoder and decoder with the Lean model on dataset molecules, their re-spellings, random trees and long spans; the property itself (atom-for-atom, bond-for-bond equality) is judged on the real round trip by an independent SMILES reader, RDKit as second judge. The central theorem decode(encode g) = g is not proved yet.",
+    "C03": ("Lean theorems C03_decode_encode / C03_roundtrip_graph / C03_roundtrip: for every parsed, kekulized graph that obeys the table (decidable hypotheses ParsedWF, ObeysTable, SpanOK < 16^3, depth < recursion budget), encoding then decoding yields the same atoms in the same order and the same bonded pairs with the same orders (SameMolecule), with each atom's neighbour order = ring bonds in formation order then chain bonds (C03_neighbour_order) - a theorem about graphs, i.e. about every spelling at once; staged versions C03_chain, C03_tree. Tie: correspondence of parser, kekulization (recorded tape), encoder, decoder on datasets, re-spellings (incl. ring digits behind branches), random trees, long spans; the independent reader judges the real round trip.",
             "§7 C03"),
     "C04": ("Lean theorems C04_parity_spec / C04_parity_eq (the encoder's chirality flip is exactly the parity of the permutation between the written neighbour order and the decoder's order, for every graph), C04_inversions_parity (inversion count = transposition parity), C04_ring_marks / C04_chain_marks (every '/' '\\' mark is carried by the emitted symbol and read back on the right end; decide over the regenerated ring table). The decoder-side half of the end-to-end statement is carried by correspondence and by the independent handedness oracle on the real round trip.",
             "§7 C04"),
-    "C05": ("find_perfect_matching is compared with the Lean model on EVERY simple graph with <= 6/7 vertices and max degree 3 (with the recorded choice tape) and against brute force; aromatic systems in many atom orders go through the real encoder+decoder and are judged per spelling by an independent reader (sigma skeleton, at most one double bond per atom inside the system) and for order-independent acceptance. No soundness theorem yet; completeness and order independence are bounded search by design.",
+    "C05": ("Lean theorems: C05_greedy_valid/_total, C05_flip_valid, C05_bfs_path_alternating, C05_augment_sound_partial (sound whenever every augmenting path found is simple), C05_bipartite_sound (sound on bipartite graphs, every tape), C05_kekulize_sound (exact result of kekulize given a perfect matching: sigma skeleton unchanged, one double bond per kept atom), C05_prune_standard_kinds (28 atom kinds, decide); unconditional soundness is FALSE (C05_no_blossom_witness / C05_soundness_false, finding F9). Tie: find_perfect_matching vs the model on EVERY subcubic graph <= 6/7 vertices + random graphs to 30 vertices with the recorded tape, brute force; aromatic systems in many atom orders judged per spelling by the independent reader. Completeness and order independence are bounded search by design.",
             "§7 C05"),
-    "C06": ("Correspondence of strict / non-strict encoding with the Lean model under changing tables; strict rejection is judged against an independent bond count, the non-strict result is compared across tables. Lean theorems (C06_nonstrict_table_free, C06_strict_iff) are registered as they are proved.",
+    "C06": ("Lean theorems C06_strict_iff / C06_strict_raises_iff (strict rejection <=> some atom's bond sum + explicit H exceeds its capacity, for every parse/kekulize result), C06_nonstrict_table_free (the non-strict result does not depend on the table), C06_strict_success_same_as_nonstrict, C06_capacity_key. Tie: correspondence of strict / non-strict encoding under changing tables on at/below/above-capacity molecules, sibling pairs differing only in explicit H, two-fragment combinations; independent bond count on the real code.",
             "§7 C06"),
-    "C07": ("Alphabet of every generated accepted table compared with the model's and with the documented contents; every returned symbol and random strings over it are decoded on the real code and judged by the independent reader; that outputs obey the table is C01_valence (proved for all strings and tables).",
+    "C07": ("Lean theorems C07_alphabet_contents (exact membership + Nodup for every table), C07_structural_symbols_valid, C07_atom_symbols_valid_partial with the exact proviso C07_atom_symbol_accepted_iff (charge <= 4300 digits; finding F10), C07_no_error (every string of valid symbols decodes without DecoderError; from the C08 proofs), C01_valence (outputs obey the table), C07_reflects_current_table. Tie: alphabet of every generated accepted table vs the model and the documented contents; every returned symbol and random strings over it decoded on the real code and judged by the independent reader.",
             "§7 C07"),
-    "C08": ("Exception class and result of decoder on malformed / arbitrary str x 4 flag combinations compared with the Lean model, whose Python-semantics layer makes every failing primitive explicit; the constraint state is compared before/after. The totality theorem is not proved yet (and is false without hypotheses: finding F2).",
+    "C08": ("Lean theorems C08_graph_total / C08_total_partial: for EVERY str, table and flag combination the decoder model returns, raises DecoderError, or raises RecursionError (deep nesting, finding F2) - every IndexError / KeyError / AttributeError / AssertionError / ValueError branch of the Python-semantics layer and fuel exhaustion (non-termination) are proved unreachable, for derivation, ring pass and writer; C08_no_recursion_error_if_shallow. Tie: exception class and result on malformed / arbitrary str x 4 flag combinations, and on table-dependent symbols decoded across a sequence of table changes, vs the model; constraint state compared before/after.",
             "§7 C08"),
     "C09": ("Exception class and result of encoder on malformed / arbitrary str x 4 flag combinations compared with the Lean model (explicit failures for every list/dict/assert/next primitive). The totality theorem is not proved yet (false without hypotheses: finding F2).",
             "§7 C09"),
-    "C10": ("Symbol-level families (every bracket-atom spelling of a structured family through the SMILES atom reader/writer and the SELFIES atom reader) and the chain encoder -> decoder -> encoder on the real code and against the model. Lean symbol lemmas (C10_atom_symbol_accepted, C10_branch_ring_symbols_accepted) are registered as they are proved.",
+    "C10": ("Lean theorems C10_atom_symbol_accepted (every atom the SMILES reader produces is spelled as a symbol the SELFIES reader maps back to the same atom and bond info, for all isotopes/charges/H counts/elements/prefixes, tokens up to 10^4300 characters), C10_standardised + the spelling families (sign runs, H/H1, leading zeros, atom class), C10_branch_ring_symbols_accepted (n < 16^3) and the limit C10_branch_ring_limit, C10_atom_symbol_dispatch; with C03_roundtrip the emitted string decodes. Tie: structured families of bracket atoms through both readers vs the model; chain encoder -> decoder -> encoder on the real code.",
             "§7 C10"),
     "C11": ("Lean theorems C11_cache_coherent / C11_capacity_pure: after ANY history of API calls, rejected updates, cache fills, LRU evictions and caller mutations, the capacity cache agrees with the current table, so what the translators read is a function of the current table only (induction over all operation lists). Tied to the code by random histories on fresh imports compared with the model and with fresh interpreters (several hash seeds).",
             "§7 C11"),
@@ -39,7 +39,7 @@ TEXT = {
             "§7 C15"),
     "C16": ("Lean theorems C16_roundtrip (all n, unbounded), C16_horner, C16_shortest, C16_unknown_zero, C16_missing_zero, C16_three_symbols, C16_alphabet_documented (generated constant = table parsed from derivation.rst) + GenEq. Tied exhaustively: every n < 16^3 and every symbol triple on the real functions vs the model.",
             "§7 C16"),
-    "C17": ("Correspondence of the full attribution lists (decoder and encoder) with the Lean model, and truthfulness oracles (output index, input index, enclosing branch symbols) on the real code. No attribution theorem yet.",
+    "C17": ("Lean theorems C17_decoder_same_string / C17_encoder_same_string (attribution never feeds back: erasure commutes with every phase), C17_output_index (every entry's token ends at the reported index, all fragments), C17_input_index(_compat) (every contributing token is the symbol at the reported position), C17_atom_attribution_partial + C17_stack_discipline (own symbol + branch symbols pushed by the enclosing calls), C17_every_atom_has_entry, C17_encoder_atoms. Tie: full attribution lists (decoder, encoder) vs the model and truthfulness oracles on the real code.",
             "§7 C17"),
     "C18": ("Lean theorems C18_conservative, C18_commutes (string level, all strings, with attribution), C18_idempotent, C18_table_documented, C18_legacy_*_rejected_without_flag, C18_legacy_atoms. Tied by symbol-level correspondence of modernize_symbol on every legacy family and decoder correspondence with/without the flag.",
             "§7 C18"),
